@@ -33,7 +33,7 @@ def required_cells(tier):
 
 
 def cases(tier, seed):
-    n = 60 if tier == "quick" else 500
+    n = 120 if tier == "quick" else 800
     return [{"kind": "shift", "seed": seed, "idx": i, "tier": tier}
             for i in range(n)]
 
